@@ -21,7 +21,7 @@ def r10_1_local_time_invariant(ctx: Ctx) -> RuleResult:
     rr = RuleResult("R10.1", "every LocalTime construction site yields nanosecond-of-day in [0, 24h)", min_instances=25)
     groups = select(global_sweep(ctx), ["LocalTime._ctor(", "LocalTime._LocalTime__nanoseconds", "LocalTime._from_hour_minute_second_nanosecond_trusted("])
     rr.states = ctx.cache.get("sweep_steps", 0)
-    decide(rr, groups, "R10.1", EXPECTED_UNDECIDED)
+    decide(rr, groups, "R10.1", EXPECTED_UNDECIDED, ctx)
     return rr
 
 
